@@ -858,6 +858,35 @@ DEFAULT_BOXES = [b"INBOX", b"Sent", b"Drafts", b"Trash", b"Spam"]
 # ---------------------------------------------------------------------------
 # in-Coq evaluation
 
+ADDR_HEADERS = [b"From", b"Sender", b"Reply-To", b"To", b"Cc", b"Bcc"]
+
+
+def mail_parse_many(values):
+    """net/mail's reading (driver call mailParse: mail.ParseAddressList + mime.QEncoding.Encode of every
+    display name) of every given header value -> {value: [(name, address), ...]}; values it rejects are absent.
+    This is the library parameter [mail_parse] of the model (response.parseAddressList since bd5007f)."""
+    vals = sorted(set(v for v in values if v))
+    if not vals:
+        return {}
+    res = C.run_ops([{"op": "batch", "fn": "mailParse", "cases": [{"a": [C.latin(v)]} for v in vals]}], timeout=300)
+    out = {}
+    if res.get("crashed"):
+        return out
+    for v, r in zip(vals, res["obs"][0]["rs"]):
+        if isinstance(r, list) and r:
+            out[v] = [(C.unlatin(r[i]), C.unlatin(r[i + 1])) for i in range(0, len(r) - 1, 2)]
+    return out
+
+
+def coq_mail_table(tab, keys=None):
+    ks = [k for k in (keys if keys is not None else sorted(tab)) if k in tab]
+    return "[" + "; ".join("(%s, [%s])" % (cstr(k), "; ".join("(%s, %s)" % (cstr(n), cstr(a)) for n, a in tab[k])) for k in ks) + "]"
+
+
+def addr_values(msg):
+    return [py_extract_header(msg, h) for h in ADDR_HEADERS]
+
+
 def coq_env(name, e):
     parts = [(k.encode(), v) for k, v in sorted(e["parts"].items()) if v]
     # keys as requested in the probes are upper-case; requests may use other case: add lower-case twins
@@ -867,9 +896,9 @@ def coq_env(name, e):
         if k.lower() != k:
             plist.append("(%s, %s)" % (cstr(k.lower()), cstr(v)))
     bs = e.get("bs") or b"NIL"
-    return "Definition %s : fenv := Build_fenv %d %s %s %s %s [%s].\n" % (
+    return "Definition %s : fenv := Build_fenv %d %s %s %s %s [%s] %s.\n" % (
         name, e.get("uid", 0), cstr(e.get("flags", b"")), cstr(e.get("idate") or b""),
-        cstr(e.get("msg") or b""), cstr(bs), "; ".join(plist))
+        cstr(e.get("msg") or b""), cstr(bs), "; ".join(plist), coq_mail_table(e.get("mail", {})))
 
 
 COQ_EVAL = """
@@ -960,13 +989,15 @@ def run_calls(chk, n):
     body += ("Definition q_spec := Eval vm_compute in diff_positions Bool.eqb 0 (map (fun _ => true) q_cases) "
              "(map (fun c => match snd c with Some o => tokb o && match fst c with [] => true | _ => if clean (fst c) then ostr_eqb (unquote o) (Some (fst c)) else str_eqb o (lit_text (fst c)) end | None => false end) q_cases).\nPrint q_spec.\n")
     body += "Definition a_cases : list (str * option str) := [\n%s].\n" % ";\n".join("(%s, %s)" % (cstr(i), optstr(o)) for i, o in zip(a_in, a_out))
-    body += "Definition a_diff := Eval vm_compute in diff_positions ostr_eqb 0 (map snd a_cases) (map (fun c => parse_address_list (fst c)) a_cases).\nPrint a_diff.\n"
+    mtab = mail_parse_many(list(a_in) + [v for m in e_in for v in addr_values(m)])
+    body += "Definition mtab : list (str * list (str * str)) := %s.\n" % coq_mail_table(mtab)
+    body += "Definition a_diff := Eval vm_compute in diff_positions ostr_eqb 0 (map snd a_cases) (map (fun c => parse_address_list (mail_table mtab) (fst c)) a_cases).\nPrint a_diff.\n"
     body += ("Definition a_spec := Eval vm_compute in diff_positions Bool.eqb 0 (map (fun _ => true) a_cases) "
              "(map (fun c => match snd c with Some o => tokb o | None => true end) a_cases).\nPrint a_spec.\n")
     body += "Definition h_cases : list (str * str * option str) := [\n%s].\n" % ";\n".join("(%s, %s, %s)" % (cstr(m), cstr(h), optstr(o)) for (m, h), o in zip(h_in, h_out))
     body += "Definition h_diff := Eval vm_compute in diff_positions ostr_eqb 0 (map snd h_cases) (map (fun c => Some (extract_header (fst (fst c)) (snd (fst c)))) h_cases).\nPrint h_diff.\n"
     body += "Definition e_cases : list (str * option str) := [\n%s].\n" % ";\n".join("(%s, %s)" % (cstr(i), optstr(o)) for i, o in zip(e_in, e_out))
-    body += "Definition e_diff := Eval vm_compute in diff_positions ostr_eqb 0 (map snd e_cases) (map (fun c => build_envelope (fst c)) e_cases).\nPrint e_diff.\n"
+    body += "Definition e_diff := Eval vm_compute in diff_positions ostr_eqb 0 (map snd e_cases) (map (fun c => build_envelope (mail_table mtab) (fst c)) e_cases).\nPrint e_diff.\n"
     body += ("Definition e_spec := Eval vm_compute in diff_positions Bool.eqb 0 (map (fun _ => true) e_cases) "
              "(map (fun c => match snd c with Some o => tokb (skipn 9 o) | None => true end) e_cases).\nPrint e_spec.\n")
     rc, log = C.coq_eval_cases("C13calls", body)
@@ -1066,6 +1097,12 @@ def evaluate(chk, scs, results, label):
     """Judge every scenario; returns number of model disagreements examined."""
     analyses = [analyse_scenario(sc, res) for sc, res in zip(scs, results)]
     body = C.COQ_CASE_HEADER + "From Raven Require Import Base.Enum Base.GoStrBytes Spec.Grammar Model.Respond Model.RespondFetch Proof.RespondAsm.\nLocal Open Scope list_scope.\n" + COQ_EVAL
+    allvals = [v for an in analyses for e in an["envs"].values() if e.get("msg") is not None for v in addr_values(e["msg"])]
+    mtab_all = mail_parse_many(allvals)
+    for an in analyses:
+        for e in an["envs"].values():
+            if e.get("msg") is not None:
+                e["mail"] = {v: mtab_all[v] for v in addr_values(e["msg"]) if v in mtab_all}
     cases = []   # (scenario idx, fetch case, env)
     for si, (sc, an) in enumerate(zip(scs, analyses)):
         for a in an["anomalies"]:
